@@ -5,6 +5,7 @@ let families : (string * (string list -> string)) list = [
   "charac", Fam_charac.run;
   "stack", Fam_stack.run;
   "catalog", Fam_catalog.run;
+  "ids", Fam_ids.run;
   "connw", Fam_connw.run;
   "storage", Fam_storage.run;
   "db", Fam_storage.run_db;
